@@ -8,6 +8,7 @@ import MutagenModel.Model.Info.Mpeg
 import MutagenModel.Model.Info.Flac
 import MutagenModel.Spec.Mpeg
 import MutagenModel.Spec.Tables
+import MutagenModel.Generated.Vbr
 set_option linter.unusedVariables false
 namespace Mutagen.C05
 open Mutagen Mutagen.Mpeg Mutagen.Spec.Mpeg
@@ -145,5 +146,15 @@ theorem streaminfo_decode_build (s : StreamInfo)
 example : decodeHeader [0xFF, 0xFB, 0x90, 0x64] =
     .ok { version10 := 10, layer := 3, bitrate := 128000, sampleRate := 44100, channels := 2, mode := 1,
           padding := false, crcProtected := false, frameLength := 417 } := by decide +kernel
+
+/-! ## where the VBR headers are looked for (regenerated from mutagen/mp3/_util.py) -/
+
+/-- the Xing/Info header is looked for directly behind the 4 header bytes and the Layer III side
+information, for every version and channel mode; the VBRI header 32 bytes behind the header -/
+theorem vbr_header_offsets (version mode : Nat) :
+    Generated.xingOffset version mode = 4 + Spec.Mpeg.sideInfoSize (decide (version = 1)) (decide (mode = 3)) ∧
+    Generated.vbriOffset version mode = 4 + 32 := by
+  unfold Generated.xingOffset Generated.vbriOffset Spec.Mpeg.sideInfoSize
+  by_cases hv : version = 1 <;> by_cases hm : mode = 3 <;> simp [hv, hm]
 
 end Mutagen.C05
